@@ -245,10 +245,11 @@ Definition hm_lookup (h : hmap) (k : Z) : V :=
 (* all bindings, bucket by bucket *)
 Definition hm_bindings (h : hmap) : list (Z * V) := concat h.
 
-(* structural invariant: every key sits in the bucket its hash selects, once *)
+(* structural invariant, per bucket: no key twice, and every key sits in the bucket its
+   hash selects *)
 Definition hm_wf (h : hmap) : Prop :=
-  NoDup (map fst (hm_bindings h))
-  /\ forall i c, nth_error h i = Some c -> forall k, In k (map fst c) -> hm_pos h k = i.
+  forall i c, nth_error h i = Some c ->
+    NoDup (map fst c) /\ forall k, In k (map fst c) -> hm_pos h k = i.
 End HashMap.
 
 (* a finite map (the abstraction of the hash map) *)
@@ -350,3 +351,52 @@ Fixpoint rom_tabulate (aw bw : Z) (pad : bool) (data : romdata) (n : nat) (a : Z
 
 Definition rom_table (aw bw : Z) (pad : bool) (data : romdata) : option (list Z) :=
   rom_tabulate aw bw pad data (Z.to_nat (2 ^ aw)) 0.
+
+(* ------------------------------------------------------------------ *)
+(** * (v) exported Verilog memory block                                 *)
+(* reg [dw-1:0] mem_N [2^aw-1:0];
+   always @(posedge clk) begin if (we) begin mem_N[wa] <= wd; end ... end
+   assign o = mem_N[ra];
+   Continuous assigns show the array as it is before the edge; at the edge every
+   enabled non-blocking assignment samples (address, data), and the updates are then
+   applied in source order (IEEE 1364 NBA region). *)
+Definition vlog_nba (ws : list wport) : list (Z * Z) := fast_mem_ws ws.
+Definition vlog_apply (m : array) (p : Z * Z) : array := upd m (fst p) (snd p).
+Definition vlog_step (m : array) (c : cycle) : list Z * array :=
+  (map m (snd c), fold_left vlog_apply (vlog_nba (fst c)) m).
+Fixpoint vlog_run (m : array) (h : list cycle) : list (list Z) * array :=
+  match h with
+  | [] => ([], m)
+  | c :: r => let '(rd, m') := vlog_step m c in
+              let '(rds, m'') := vlog_run m' r in (rd :: rds, m'')
+  end.
+
+(* ------------------------------------------------------------------ *)
+(** * (vi) memory ports after synthesize (passes._decompose, ops 'm' and '@')  *)
+(* every wire is split into 1-bit wires; around a memory port the address and the
+   data are re-assembled with concat_list (LSB first) and the word read is split into
+   bits again (data[i]) *)
+Fixpoint to_bits (n : nat) (x : Z) : list bool :=
+  match n with
+  | O => []
+  | Datatypes.S n' => Z.odd x :: to_bits n' (x / 2)
+  end.
+Fixpoint of_bits (l : list bool) : Z :=
+  match l with
+  | [] => 0
+  | b :: r => b2z b + 2 * of_bits r
+  end.
+Definition rebuild (n : nat) (x : Z) : Z := of_bits (to_bits n x).
+
+Definition synth_wport (aw dw : nat) (w : wport) : wport :=
+  (rebuild aw (w_addr w), rebuild dw (w_data w), rebuild 1 (w_en w)).
+Definition synth_cycle (aw dw : nat) (c : cycle) : cycle :=
+  (map (synth_wport aw dw) (fst c), map (rebuild aw) (snd c)).
+(* a machine seen through synthesized ports *)
+Definition synth_step {S} (step : S -> cycle -> list Z * S) (aw dw : nat) (s : S) (c : cycle) : list Z * S :=
+  let '(rd, s') := step s (synth_cycle aw dw c) in (map (rebuild dw) rd, s').
+
+Definition wport_fits (aw dw : nat) (w : wport) : Prop :=
+  0 <= w_addr w < 2 ^ Z.of_nat aw /\ 0 <= w_data w < 2 ^ Z.of_nat dw /\ 0 <= w_en w < 2.
+Definition cycle_fits (aw dw : nat) (c : cycle) : Prop :=
+  Forall (wport_fits aw dw) (fst c) /\ Forall (fun a => 0 <= a < 2 ^ Z.of_nat aw) (snd c).
